@@ -82,7 +82,9 @@ def work(job):
     res["states"] = cases[0][1].nstates
     # hypotheses of C12_storage_independent, evaluated on the exported machine (default representation)
     wf = rtdiff.model().ask("wf", cases[0][1].opts, cases[0][1].mt, timeout=60)
-    res["thm"] = "covered" if ("safeCheck=true" in wf and "idxFree=true" in wf) else ("indexed" if "idxFree=false" in wf else "other")
+    # (index expressions are bounds-checked in every representation set that C12 compares: IdxOK holds; with
+    #  -funsafe-string-indexing only machines without index expressions are covered)
+    res["thm"] = ("covered" if "idxFree=true" in wf else "indexed") if "safeCheck=true" in wf else "other"
     yields = bool(list(cases[0][1].outcome.cctx.yield_codes))
     if yields:
         cases = [(n, c) for n, c in cases if c.indirect()]
@@ -94,6 +96,7 @@ def work(job):
         cut = rng.randint(0, n)
         chunks = [c for c in (cut, n - cut) if c]
         ref = None
+        refs = {}     # unsafe indexing is not a representation option: such builds are compared among themselves
         for rname, c in cases:
             ops = rtdiff.feed_ops(c, data, chunks, free=True)
             if not c.indirect():
@@ -111,8 +114,10 @@ def work(job):
             if rtdiff.model_ub(ml):
                 continue
             cc = canon(cl)
+            group = "unsafe-index" if "-funsafe-string-indexing" in c.args else "checked"
+            ref = refs.get(group)
             if ref is None:
-                ref = (rname, cc, c.args)
+                ref = refs[group] = (rname, cc, c.args)
             elif cc != ref[1]:
                 k = next((i for i in range(min(len(cc), len(ref[1]))) if cc[i] != ref[1][i]), min(len(cc), len(ref[1])))
                 res["viol"].append({"kind": "repr-dependent", "repr": rname, "repr_ref": ref[0], "args": c.args, "args_ref": ref[2],
@@ -137,7 +142,7 @@ def main():
         shutil.rmtree(wd, ignore_errors=True)
     byname = {p["name"]: p for p in progs}
     st = {"programs": 0, "binary_runs": 0, "builds": 0, "rejected": 0,
-          "storage_theorem_hypotheses_hold": 0, "storage_theorem_not_applicable_index_expression": 0, "storage_theorem_other": 0}
+          "storage_theorem_hypotheses_hold": 0, "storage_theorem_hypotheses_hold_with_checked_index_reads": 0, "storage_theorem_other": 0}
     distinct = set()
     for r in results:
         if r["status"] != "ok":
@@ -146,7 +151,7 @@ def main():
         st["programs"] += 1
         st["binary_runs"] += r["runs"]
         st["builds"] += r["builds"]
-        st[{"covered": "storage_theorem_hypotheses_hold", "indexed": "storage_theorem_not_applicable_index_expression"}.get(r["thm"], "storage_theorem_other")] += 1
+        st[{"covered": "storage_theorem_hypotheses_hold", "indexed": "storage_theorem_hypotheses_hold_with_checked_index_reads"}.get(r["thm"], "storage_theorem_other")] += 1
         prog = byname[r["name"]]
         if r["states"] >= 3:
             distinct.add(population.src_hash(prog["src"]))
